@@ -257,17 +257,15 @@ def Op.isFilter : Op → Bool
   | .filter _ _ => true
   | _ => false
 
-/-- **mr_denotes**: for every history of add / restrict / clear the stored ranges denote exactly
-the union of everything added, intersected with every restriction applied since -/
-theorem mr_denotes (ops : List Op) (hok : ∀ o ∈ ops, o.ok) (hnf : ∀ o ∈ ops, o.isFilter = false) :
-    ∀ p, pts (run ops) p ↔ ops.foldl specStep (fun _ => False) p := by
-  suffices h : ∀ m S, MultiRange.Inv m → (∀ p, pts m p ↔ S p) →
-      ∀ p, pts (ops.foldl step m) p ↔ ops.foldl specStep S p from
-    h [] _ inv_nil (by intro p; simp [pts])
-  induction ops with
-  | nil => intro m S _ h; exact h
+/-- **mr_denotes_from**: from any state satisfying the invariant (in particular any reachable
+state, also after a `filterWithin`), every continuation by add / restrict / clear denotes the
+set-level fold of unions and intersections applied to the points of that state -/
+theorem mr_denotes_from (ops : List Op) (hok : ∀ o ∈ ops, o.ok) (hnf : ∀ o ∈ ops, o.isFilter = false)
+    (m : List Range) (S : Int → Prop) (hm : MultiRange.Inv m) (hS : ∀ p, pts m p ↔ S p) :
+    ∀ p, pts (ops.foldl step m) p ↔ ops.foldl specStep S p := by
+  induction ops generalizing m S with
+  | nil => exact hS
   | cons o os ih =>
-    intro m S hm hS
     have ho := hok o (by simp)
     have hf := hnf o (by simp)
     simp only [List.foldl_cons]
@@ -284,6 +282,13 @@ theorem mr_denotes (ops : List Op) (hok : ∀ o ∈ ops, o.ok) (hnf : ∀ o ∈ 
     | clear =>
       apply ih (fun o' ho' => hok o' (by simp [ho'])) (fun o' ho' => hnf o' (by simp [ho'])) _ _ inv_nil
       intro p; simp [pts, specStep]
+
+/-- **mr_denotes**: for every history of add / restrict / clear from the empty collection the
+stored ranges denote exactly the union of everything added, intersected with every restriction
+applied since -/
+theorem mr_denotes (ops : List Op) (hok : ∀ o ∈ ops, o.ok) (hnf : ∀ o ∈ ops, o.isFilter = false) :
+    ∀ p, pts (run ops) p ↔ ops.foldl specStep (fun _ => False) p :=
+  mr_denotes_from ops hok hnf [] _ inv_nil (by intro p; simp [pts])
 
 /-! ## the comparator handed to `std::sort` -/
 
